@@ -208,6 +208,46 @@ func (e *Eng) evalSpec(st *State, x *SExpr, env map[string]*Val, old map[string]
 					}
 				}
 				return scalar(strconv.FormatBool(here), "Bool", nil)
+			case "freshPerIteration":
+				// freshPerIteration(v): the variable named v visible here is declared inside the body of the innermost
+				// loop that encloses this point, i.e. every iteration has its own instance (its address may be handed
+				// to something that outlives the iteration)
+				fresh := false
+				if len(x.Args) > 1 && x.Args[1].Name != "" {
+					var best types.Object
+					for o := range st.vars {
+						if o.Name() != x.Args[1].Name {
+							continue
+						}
+						if best == nil || e.prefer(o, best) {
+							best = o
+						}
+					}
+					var loopBody *ast.BlockStmt
+					ast.Inspect(e.fnBody(), func(n ast.Node) bool {
+						if n == nil {
+							return false
+						}
+						if n.Pos() > e.curPos || n.End() <= e.curPos {
+							return n.Pos() <= e.curPos // descend only into nodes that contain the point
+						}
+						switch l := n.(type) {
+						case *ast.ForStmt:
+							if l.Body.Pos() <= e.curPos && e.curPos < l.Body.End() {
+								loopBody = l.Body
+							}
+						case *ast.RangeStmt:
+							if l.Body.Pos() <= e.curPos && e.curPos < l.Body.End() {
+								loopBody = l.Body
+							}
+						}
+						return true
+					})
+					if best != nil && loopBody != nil {
+						fresh = best.Pos() >= loopBody.Pos() && best.Pos() < loopBody.End()
+					}
+				}
+				return scalar(strconv.FormatBool(fresh), "Bool", nil)
 			case "litOrd":
 				// litOrd(x): x is known to be the n-th function literal (source order, 1-based) of the enclosing
 				// declaration; 0 when x is not known to be one of its literals
